@@ -600,7 +600,14 @@ class CallGraph:
         trait_def = trait.split("<")[0]
         if self_adt.startswith("dyn "):
             return ("dyn", f"{trait_def}::{method}")
-        for i2 in self.impl_index.get((self_adt, trait_def), []):
+        cands = self.impl_index.get((self_adt, trait_def), [])
+        if len(cands) > 1:
+            # several impls of one generic trait for the type (e.g. From<A> and From<B>): pick by the trait's arguments
+            want = f"<{self_ty} as {trait}>".replace(" ", "")
+            exact = [i2 for i2 in cands if (i2.get("trait_full") or "").replace(" ", "") == want]
+            if exact:
+                cands = exact
+        for i2 in cands:
             for it in i2["items"]:
                 if it["name"] == method and it["def"] in self.fx.bodies:
                     return it["def"]
